@@ -116,6 +116,8 @@ impl Actor for VerifSessionActor {
 
 struct VerifTcp {
     sent: Arc<AtomicU32>,
+    /// control frames handed to the transport, summarised (announce replays)
+    control: Option<Arc<Mutex<Vec<String>>>>,
 }
 
 #[cfg_attr(feature = "async-trait", ractor::async_trait)]
@@ -127,8 +129,21 @@ impl Actor for VerifTcp {
         Ok(())
     }
     async fn handle(&self, _myself: ActorRef<Self::Msg>, message: Self::Msg, _state: &mut Self::State) -> Result<(), ActorProcessingErr> {
-        if matches!(message, SessionMessage::Send(_)) {
+        if let SessionMessage::Send(nm) = &message {
             self.sent.fetch_add(1, AtomicOrdering::SeqCst);
+            if let (Some(log), Some(crate::protocol::meta::network_message::Message::Control(c))) = (&self.control, &nm.message) {
+                use control_protocol::control_message::Msg;
+                let acts = |v: &Vec<control_protocol::Actor>| v.iter().map(|a| format!("{}:{}", a.pid, a.name.clone().unwrap_or_default())).collect::<Vec<_>>().join("+");
+                let line = match &c.msg {
+                    Some(Msg::Spawn(s)) => format!("Spawn/{}", acts(&s.actors)),
+                    Some(Msg::Terminate(t)) => format!("Terminate/{}", t.ids.iter().map(|x| x.to_string()).collect::<Vec<_>>().join("+")),
+                    Some(Msg::PgJoin(j)) => format!("PgJoin/{}/{}/{}", j.scope, j.group, acts(&j.actors)),
+                    Some(Msg::PgLeave(l)) => format!("PgLeave/{}/{}/{}", l.scope, l.group, acts(&l.actors)),
+                    Some(_) => "other".to_string(),
+                    None => "none".to_string(),
+                };
+                log.lock().unwrap().push(line);
+            }
         }
         Ok(())
     }
@@ -268,7 +283,7 @@ pub async fn verif_session_step(
     let frames = Arc::new(Mutex::new(Vec::new()));
     let (session_actor, session_handle) = Actor::spawn(None, VerifSessionActor { frames: frames.clone() }, ()).await.unwrap();
     let sent = Arc::new(AtomicU32::new(0));
-    let (tcp, tcp_handle) = Actor::spawn(None, VerifTcp { sent: sent.clone() }, ()).await.unwrap();
+    let (tcp, tcp_handle) = Actor::spawn(None, VerifTcp { sent: sent.clone(), control: None }, ()).await.unwrap();
     let received = Arc::new(AtomicU32::new(0));
     let target_log = Arc::new(Mutex::new(Vec::new()));
     let (target_cell, target_handle) = if remotable {
@@ -385,7 +400,7 @@ pub async fn verif_mirror(have: &[u64], enrolled: bool, kind: &str, list: &[u64]
     let frames = Arc::new(Mutex::new(Vec::new()));
     let (session_actor, _h) = Actor::spawn(None, VerifSessionActor { frames: frames.clone() }, ()).await.unwrap();
     let sent = Arc::new(AtomicU32::new(0));
-    let (tcp, _th) = Actor::spawn(None, VerifTcp { sent: sent.clone() }, ()).await.unwrap();
+    let (tcp, _th) = Actor::spawn(None, VerifTcp { sent: sent.clone(), control: None }, ()).await.unwrap();
     let session = NodeSession {
         cookie: "cookie".to_string(),
         is_server: true,
@@ -451,6 +466,91 @@ pub async fn verif_mirror(have: &[u64], enrolled: bool, kind: &str, list: &[u64]
     }
     for (_, a) in before {
         a.stop(None);
+    }
+    tcp.stop(None);
+    session_actor.stop(None);
+    server.stop(None);
+    out
+}
+
+
+/// One pid-lifecycle / group-change event handled by the real `handle_supervisor_evt` of an authenticated session. Two local actors exist: actor 1 and
+/// actor 2, each remotable or not; `advertised` says which of them are already in the advertised set. event: "Spawn1" | "Terminate2" | "Join12" | "Leave21" | "Join-" ...
+/// Returns "frames=<..>;advertised=<1|2 list>;proxies=<n>" with pids written as actor numbers.
+pub async fn verif_announce(advertised: &[u64], remotable: &[bool], event: &str) -> String {
+    let log = Arc::new(Mutex::new(Vec::new()));
+    let (server, _sh) = Actor::spawn(None, VerifNodeServer { reply: "NoOtherConnection".to_string(), log: log.clone() }, ()).await.unwrap();
+    let frames = Arc::new(Mutex::new(Vec::new()));
+    let (session_actor, _h) = Actor::spawn(None, VerifSessionActor { frames: frames.clone() }, ()).await.unwrap();
+    let sent = Arc::new(AtomicU32::new(0));
+    let control = Arc::new(Mutex::new(Vec::new()));
+    let (tcp, _th) = Actor::spawn(None, VerifTcp { sent: sent.clone(), control: Some(control.clone()) }, ()).await.unwrap();
+    let mut cells: Vec<ractor::ActorCell> = Vec::new();
+    for (i, r) in remotable.iter().enumerate() {
+        let received = Arc::new(AtomicU32::new(0));
+        let tl = Arc::new(Mutex::new(Vec::new()));
+        let name = Some(format!("name-a{}-{}", i + 1, std::process::id()));
+        let c = if *r {
+            Actor::spawn(name, VerifTarget::<VerifRemotable> { received, log: tl, _m: std::marker::PhantomData }, ()).await.unwrap().0.get_cell()
+        } else {
+            Actor::spawn(name, VerifTarget::<VerifPlain> { received, log: tl, _m: std::marker::PhantomData }, ()).await.unwrap().0.get_cell()
+        };
+        cells.push(c);
+    }
+    let session = NodeSession {
+        cookie: "cookie".to_string(),
+        is_server: true,
+        node_id: 1,
+        this_node_name: auth_protocol::NameMessage { name: "verif-myself".to_string(), flags: Some(auth_protocol::NodeFlags { version: 1 }), connection_string: "verif-myself:1".to_string(), connection_id: 0 },
+        node_server: server.get_cell().into(),
+        connection_mode: NodeConnectionMode::Isolated,
+        max_inbound_frame_size: crate::DEFAULT_MAX_INBOUND_FRAME_SIZE,
+        connection_id: 0,
+    };
+    let mut state = NodeSessionState {
+        auth: verif_auth_state("AsServer(Ok)", 0, 0, [0; 32], [0; 32]),
+        ready: ReadyState::Ready,
+        local_addr: SocketAddr::new(std::net::IpAddr::V4(std::net::Ipv4Addr::LOCALHOST), 0),
+        peer_addr: SocketAddr::new(std::net::IpAddr::V4(std::net::Ipv4Addr::LOCALHOST), 0),
+        name: None,
+        connection_id: 0,
+        remote_actors: HashMap::new(),
+        advertised_local_pids: advertised.iter().map(|k| cells[*k as usize - 1].get_id().pid()).collect(),
+        tcp: Some(tcp.clone()),
+        ping_task: None,
+        epoch: Instant::now(),
+        pong_warnings: PongWarnings::default(),
+    };
+    let myself: ActorRef<crate::node::NodeSessionMessage> = session_actor.get_cell().into();
+    let pick = |s: &str| -> Vec<ractor::ActorCell> { s.chars().filter_map(|c| c.to_digit(10)).map(|d| cells[d as usize - 1].clone()).collect() };
+    let ev = if let Some(r) = event.strip_prefix("Spawn") {
+        SupervisionEvent::PidLifecycleEvent(ractor::registry::PidLifecycleEvent::Spawn(pick(r)[0].clone()))
+    } else if let Some(r) = event.strip_prefix("Terminate") {
+        SupervisionEvent::PidLifecycleEvent(ractor::registry::PidLifecycleEvent::Terminate(pick(r)[0].clone()))
+    } else if let Some(r) = event.strip_prefix("Join") {
+        SupervisionEvent::ProcessGroupChanged(ractor::pg::GroupChangeMessage::Join("the-scope".to_string(), "the-group".to_string(), pick(r)))
+    } else if let Some(r) = event.strip_prefix("Leave") {
+        SupervisionEvent::ProcessGroupChanged(ractor::pg::GroupChangeMessage::Leave("the-scope".to_string(), "the-group".to_string(), pick(r)))
+    } else {
+        panic!("unknown event {event}")
+    };
+    let _ = session.handle_supervisor_evt(myself.clone(), ev, &mut state).await;
+    ractor::concurrency::sleep(Duration::from_millis(30)).await;
+    let num = |pid: u64| cells.iter().position(|c| c.get_id().pid() == pid).map(|i| (i + 1).to_string()).unwrap_or_else(|| "?".to_string());
+    let mut fr: Vec<String> = control.lock().unwrap().clone();
+    for f in fr.iter_mut() {
+        for (i, c) in cells.iter().enumerate() {
+            *f = f.replace(&format!("{}:", c.get_id().pid()), &format!("#{}:", i + 1)).replace(&format!("-{}", std::process::id()), "");
+            if f.starts_with("Terminate/") {
+                *f = f.replace(&c.get_id().pid().to_string(), &format!("#{}", i + 1));
+            }
+        }
+    }
+    let mut adv: Vec<String> = state.advertised_local_pids.iter().map(|p| num(*p)).collect();
+    adv.sort();
+    let out = format!("frames={};advertised={};proxies={}", fr.join("|"), adv.join("+"), state.remote_actors.len());
+    for c in cells {
+        c.stop(None);
     }
     tcp.stop(None);
     session_actor.stop(None);
